@@ -174,7 +174,14 @@ struct ShardResult {
     panics: Vec<Value>,
     deaths: Vec<Value>,
     machinery: Vec<String>,
+    /// cases of the shard that were not run because the shard had already produced MAX_DEATHS_PER_SHARD confirmed deaths
+    not_run: u64,
 }
+
+/// A shard that has produced this many confirmed worker deaths is a violation beyond doubt; every further death costs three
+/// worker processes (the dead one, the confirmation, the re-run of the cases before it), so the rest of the shard is not run
+/// and the run is reported as not exhaustive. Never reached on a tree without a crash defect.
+const MAX_DEATHS_PER_SHARD: usize = 6;
 
 fn run_worker(worker_cmd: &str, tier: &str, si: usize, start: usize, end: usize, budget_ms: u64) -> (Option<Value>, Option<(u64, String, String)>, String) {
     let exe = std::env::current_exe().expect("current_exe");
@@ -234,7 +241,7 @@ fn run_worker(worker_cmd: &str, tier: &str, si: usize, start: usize, end: usize,
 }
 
 fn run_shard(worker_cmd: &str, tier: &str, si: usize, start: usize, end: usize) -> ShardResult {
-    let mut r = ShardResult { cases: 0, loaded: 0, entries: 0, outcomes: vec![], panics: vec![], deaths: vec![], machinery: vec![] };
+    let mut r = ShardResult { cases: 0, loaded: 0, entries: 0, outcomes: vec![], panics: vec![], deaths: vec![], machinery: vec![], not_run: 0 };
     let mut s = start;
     let mut guard_iters = 0;
     while s < end {
@@ -271,6 +278,10 @@ fn run_shard(worker_cmd: &str, tier: &str, si: usize, start: usize, end: usize) 
                     }
                 }
                 r.cases += 1;
+                if r.deaths.len() >= MAX_DEATHS_PER_SHARD {
+                    r.not_run = (end - (case as usize + 1)) as u64 + (case as usize - s) as u64;
+                    break;
+                }
                 // results of cases s..case of the dead worker are lost: re-run them (they are known not to crash)
                 if (case as usize) > s {
                     let (d3, _, _) = run_worker(worker_cmd, tier, si, s, case as usize, WATCHDOG_MS * 2);
@@ -317,6 +328,7 @@ pub fn sweep(ctx: &Ctx, prop: &str, worker_cmd: &str, all: &[(Seed, PlanOpts)], 
     shards.sort_by_key(|s| (s.1, s.0));
     let panics: Mutex<BTreeMap<String, (u64, Value)>> = Mutex::new(BTreeMap::new());
     let skipped = std::sync::atomic::AtomicU64::new(0);
+    let after_deaths = std::sync::atomic::AtomicU64::new(0);
     let outcomes: Mutex<HashSet<u64>> = Mutex::new(HashSet::new());
     shards.par_iter().for_each(|&(si, s, e)| {
         if ctx.elapsed() > wall_cap_s {
@@ -324,6 +336,7 @@ pub fn sweep(ctx: &Ctx, prop: &str, worker_cmd: &str, all: &[(Seed, PlanOpts)], 
             return;
         }
         let r = run_shard(worker_cmd, tier, si, s, e);
+        after_deaths.fetch_add(r.not_run, std::sync::atomic::Ordering::Relaxed);
         ctx.evals(r.cases);
         ctx.add_states(r.cases);
         ctx.add_transitions(r.entries);
@@ -375,6 +388,10 @@ pub fn sweep(ctx: &Ctx, prop: &str, worker_cmd: &str, all: &[(Seed, PlanOpts)], 
     let sk = skipped.load(std::sync::atomic::Ordering::Relaxed);
     if sk > 0 {
         ctx.not_exhaustive(&format!("wall cap {}s reached: {} of {} planned mutants not run", wall_cap_s, sk, total));
+    }
+    let ad = after_deaths.load(std::sync::atomic::Ordering::Relaxed);
+    if ad > 0 {
+        ctx.not_exhaustive(&format!("{} mutants not run: their shards had already produced {} confirmed worker deaths each (reported as violations)", ad, MAX_DEATHS_PER_SHARD));
     }
     // samples: first few faults of the first seeds
     for (si, (seed, opts)) in all.iter().enumerate().take(6) {
